@@ -15,7 +15,7 @@ package cachekv
 //@ ghost pkv.m (Array Iface (Array Str Bytes))
 
 // container/list and the KVPair items the sorted list holds are library state: no contract speaks about them
-//@ library_state Ha_Ptr Hc_Slice Hc_S_container_list_Element_v Hc_S_container_list_List_v Hc_S_github_com_tendermint_tendermint_libs_common_KVPair_v
+//@ library_state Ha_Ptr Hc_Slice Hc_S_container_list_Element_v Hc_S_container_list_List_v
 
 //@ guarded Store.cache, Store.unsortedCache, Store.sortedCache by Store.mtx
 
@@ -106,6 +106,11 @@ package cachekv
 //@   props C15
 //@   requires store.mtx == 1 && store.cache != nil && store.unsortedCache != nil
 //@   modifies elems(store.unsortedCache)
+// pre-existing KVPair items are never written (open iterators hold pointers to them): loop frames + the automatic
+// frame obligation on the KVPair heap
+//@   loop 1 frame Hmp_Str_S_anon_fa4d6974_v
+//@   loop 2 frame
+//@   loop 3 frame
 //@   loop 1 invariant 0 <= iterpos(1) && iterpos(1) <= iterlen(1) && store.mtx == 1
 //@   loop 1 invariant forall k string :: has(store.unsortedCache, k) == (old(has(store.unsortedCache, k)) && !(iteridx(1, k) < iterpos(1) && !bytes_lt(bytes(k), start) && (end == nil || bytes_lt(bytes(k), end))))
 //@   loop 1 invariant forall r int :: r != ref(store.unsortedCache) ==> Hmp_Str_S_anon_fa4d6974_v[r] == old(Hmp_Str_S_anon_fa4d6974_v[r])   // the presence sets of all other map[string]struct{} values
